@@ -3,6 +3,7 @@ package props
 import (
 	"fmt"
 	"strings"
+	"sync"
 	"sync/atomic"
 	"time"
 
@@ -15,8 +16,8 @@ func init() {
 	register(&Property{
 		ID: "C17",
 		Rule: "a reactive scripted server holds 'the nick I use for this client' and plays scripts over {433 during registration x0..6, 001 with the requested or a different nick, client NICK confirmed, refused once/twice then confirmed, " +
-			"NICK forced by the server, NICK of other users to/from look-alike names}; exhaustively for short scripts (collisions 0..3 x 2 welcomes x all event sequences up to length 3 or 4) and by PRNG up to length 40; tracking on/off (tracked sessions with and without a channel), " +
-			"generators {default, append '_', fixed-length rotation, identity}. At every marker Me().Nick must equal the server's nick; Me() and Config().Me must be non-nil at every marker and inside every harness handler " +
+			"NICK forced by the server, NICK of other users to/from look-alike names, a server-side respelling of the client's nick in letter case only}; exhaustively for short scripts (collisions 0..3 x 2 welcomes x all event sequences up to length 3 or 4) and by PRNG up to length 40; tracking on/off (tracked sessions with and without a channel), " +
+			"generators {default, append '_', fixed-length rotation, identity, a stateful fallback list}; every consultation of a custom generator is recorded and a collision must be answered from exactly one consultation made with the refused nick. At every marker Me().Nick must equal the server's nick; Me() and Config().Me must be non-nil at every marker and inside every harness handler " +
 			"(Config().Me is sampled before anything calls Me()); after each 433 the next NICK on the wire must be generator(refused). DefaultNewNick is checked for all 256 last bytes x prefixes of length 0..3. " +
 			"distinct_nontrivial = distinct (tracking, joined, generator, collisions, welcome kind, event-kind sequence prefix of length 3) cells; a script is non-trivial when it has a collision or a later change.",
 		Assumptions: []string{"the client never asks for the nick it already has; before the welcome only the wire (NICK after 433) is judged, not Me()"},
@@ -46,7 +47,7 @@ var c17Gens = map[string]func(string) string{
 	"identity": func(s string) string { return s },
 }
 
-var c17GenNames = []string{"default", "underscore", "rotate", "identity"}
+var c17GenNames = []string{"default", "underscore", "rotate", "identity", "stateful"}
 
 type c17Script struct {
 	Tracking   bool
@@ -88,7 +89,7 @@ func runC17(c *Ctx) {
 			if len(cur) == maxLen {
 				return
 			}
-			for _, k := range []byte("CRDFO") {
+			for _, k := range []byte("CRDFOK") {
 				rec(append(cur, k))
 			}
 		}
@@ -97,6 +98,9 @@ func runC17(c *Ctx) {
 		for _, tr := range []int{0, 1, 2, 3} {
 			for _, g := range c17GenNames {
 				for col := 0; col <= 3; col++ {
+					if g == "stateful" && tr == 2 {
+						continue // keep the exhaustive grid within budget: the stateful generator runs in three of four tracking modes
+					}
 					for _, wd := range []bool{false, true} {
 						for _, sq := range seqs {
 							if idx%parts == part && c.Want("exh", idx) {
@@ -111,7 +115,7 @@ func runC17(c *Ctx) {
 				}
 			}
 		}
-		c.R.Exhaustive[fmt.Sprintf("all scripts: 4 tracking modes (off, on, on+joined, on then switched off after the first event) x 4 generators x collisions 0..3 x 2 welcomes x event sequences of length <= %d over {C,R,D,F,O}", maxLen)] = c.Only == ""
+		c.R.Exhaustive[fmt.Sprintf("all scripts: 4 tracking modes (off, on, on+joined, on then switched off after the first event) x 4 generators x collisions 0..3 x 2 welcomes x event sequences of length <= %d over {C,R,D,F,O,K}", maxLen)] = c.Only == ""
 	case "prng":
 		part, parts := c.ArgInt("part", 0), c.ArgInt("parts", 1)
 		total := c.Pick(1500, 60000)
@@ -123,15 +127,27 @@ func runC17(c *Ctx) {
 			}
 			r := rig.Rand(c.Seed, "C17", "prng", idx)
 			tr := r.Intn(4)
-			sc := c17Script{Tracking: tr > 0, Joined: tr == 2, Toggle: tr == 3, Gen: c17GenNames[r.Intn(4)], Collisions: r.Intn(7), WelcomeDif: r.Intn(2) == 0}
+			sc := c17Script{Tracking: tr > 0, Joined: tr == 2, Toggle: tr == 3, Gen: c17GenNames[r.Intn(len(c17GenNames))], Collisions: r.Intn(7), WelcomeDif: r.Intn(2) == 0}
 			for k := r.Intn(41); k > 0; k-- {
-				sc.Events = append(sc.Events, "CRDFO"[r.Intn(5)])
+				sc.Events = append(sc.Events, "CRDFOK"[r.Intn(6)])
 			}
 			if !c17Run(c, "prng", idx, sc) {
 				return
 			}
 		}
 	}
+}
+
+func c17FlipCase(s string) string {
+	for i := 0; i < len(s); i++ {
+		switch c := s[i]; {
+		case c >= 'a' && c <= 'z':
+			return s[:i] + string(c-32) + s[i+1:]
+		case c >= 'A' && c <= 'Z':
+			return s[:i] + string(c+32) + s[i+1:]
+		}
+	}
+	return s
 }
 
 func runC17DefNick(c *Ctx) {
@@ -185,6 +201,28 @@ func runC17DefNick(c *Ctx) {
 func c17Run(c *Ctx, gen string, idx int, sc c17Script) bool {
 	c.J.Log("CASE %s %s", Case(gen, idx), sc.String())
 	genf := c17Gens[sc.Gen]
+	// every consultation of the generator is recorded: a collision must be answered from exactly one of them
+	type genCall struct{ in, out string }
+	var genMu sync.Mutex
+	var genCalls []genCall
+	if sc.Gen == "stateful" {
+		// not a pure function of its argument: a fallback list that advances with every call
+		n := 0
+		genf = func(old string) string {
+			n++
+			return fmt.Sprintf("fb%d", n)
+		}
+	}
+	if genf != nil {
+		inner := genf
+		genf = func(old string) string {
+			out := inner(old)
+			genMu.Lock()
+			genCalls = append(genCalls, genCall{old, out})
+			genMu.Unlock()
+			return out
+		}
+	}
 	s := NewSession(SessionOpts{Tracking: sc.Tracking, Flood: true, Mutate: func(cfg *client.Config) {
 		if genf != nil {
 			cfg.NewNick = genf
@@ -194,6 +232,23 @@ func c17Run(c *Ctx, gen string, idx int, sc c17Script) bool {
 	if genf == nil {
 		genf = client.DefaultNewNick
 	}
+	// expected answer to a collision on nick x; for recorded generators: the output of the single call made for it
+	expectAfter433 := func(x string, callsBefore int) (string, string) {
+		if sc.Gen == "default" {
+			return client.DefaultNewNick(x), ""
+		}
+		genMu.Lock()
+		calls := append([]genCall(nil), genCalls[callsBefore:]...)
+		genMu.Unlock()
+		if len(calls) != 1 {
+			return "", fmt.Sprintf("the generator was consulted %d times for one collision on %q (calls: %v)", len(calls), x, calls)
+		}
+		if calls[0].in != x {
+			return calls[0].out, fmt.Sprintf("the generator was given %q, the refused nick is %q", calls[0].in, x)
+		}
+		return calls[0].out, ""
+	}
+	nCalls := func() int { genMu.Lock(); defer genMu.Unlock(); return len(genCalls) }
 	conn := s.Conn
 	viol := func(kind, detail string) {
 		c.R.Violate(rig.Violation{Sig: "c17|" + kind, Detail: detail + " — script: " + sc.String(), Case: Case(gen, idx)})
@@ -249,12 +304,19 @@ func c17Run(c *Ctx, gen string, idx int, sc c17Script) bool {
 		viol("registration-nick", fmt.Sprintf("registration asked for nick %q, configured %q", req, "me"))
 	}
 	for k := 0; k < sc.Collisions; k++ {
+		before := nCalls()
 		mc.SendLine(fmt.Sprintf(":srv 433 * %s :Nickname is already in use", req))
 		got, ok := nextNick()
 		if !ok {
 			return stuck(fmt.Sprintf("NICK after collision %d", k+1))
 		}
-		if want := genf(req); got != want {
+		if !s.WireMarker(mc) { // the 433 has been handled completely
+			return stuck("PONG after a collision")
+		}
+		want, complaint := expectAfter433(req, before)
+		if complaint != "" {
+			viol("generator-use", complaint)
+		} else if got != want {
 			viol("collision-answer", fmt.Sprintf("433 for %q was answered with NICK %q, generator yields %q", req, got, want))
 		}
 		req = got
@@ -329,12 +391,18 @@ func c17Run(c *Ctx, gen string, idx int, sc c17Script) bool {
 			refusals := map[byte]int{'C': 0, 'R': 1, 'D': 2}[e]
 			cur := got
 			for k := 0; k < refusals; k++ {
+				before := nCalls()
 				mc.SendLine(fmt.Sprintf(":srv 433 %s %s :Nickname is already in use", srvNick, cur))
 				nx, ok := nextNick()
 				if !ok {
 					return stuck("NICK after a refused change")
 				}
-				if w := genf(cur); nx != w {
+				if !s.WireMarker(mc) {
+					return stuck("PONG after a refused change")
+				}
+				if w, complaint := expectAfter433(cur, before); complaint != "" {
+					viol("generator-use", complaint)
+				} else if nx != w {
 					viol("collision-answer", fmt.Sprintf("433 for %q was answered with NICK %q, generator yields %q", cur, nx, w))
 				}
 				cur = nx
@@ -345,6 +413,14 @@ func c17Run(c *Ctx, gen string, idx int, sc c17Script) bool {
 			}
 			mc.SendLine(fmt.Sprintf(":%s!ident@host NICK :%s", srvNick, cur))
 			srvNick = cur
+		case 'K':
+			// the server respells the client's nick: letter case only
+			n := c17FlipCase(srvNick)
+			if n == srvNick {
+				n = fmt.Sprintf("forcedk%d", i)
+			}
+			mc.SendLine(fmt.Sprintf(":%s!ident@host NICK %s", srvNick, n))
+			srvNick = n
 		case 'F':
 			n := fmt.Sprintf("forced%d", i)
 			mc.SendLine(fmt.Sprintf(":%s!ident@host NICK %s", srvNick, n))
